@@ -571,15 +571,21 @@ def thread_races(ctx, tmp, template):
         a_in, b_done, res = threading.Event(), threading.Event(), {}
         a_thread = []
 
+        observed = []  # the order in which A's failed block is undone, as it happens
+
         def rollback(self, *a, **k):
             if a_thread and threading.get_ident() == a_thread[0]:
+                observed.append("undo")
                 b_done.wait(2.0)  # let the other client finish first if it can
             return orig_rollback(self, *a, **k)
 
         def thread_a2():
             a_thread.append(threading.get_ident())
             try:
+                import sqlalchemy
+
                 A = Butler.from_config(root, writeable=True, run="r1")
+                sqlalchemy.event.listen(A._registry._db._engine, "rollback", lambda conn: observed.append("unlock"))
                 with A.transaction():
                     A.put({"who": "A"}, "dt", instrument="I", detector=6)
                     a_in.set()
@@ -628,6 +634,20 @@ def thread_races(ctx, tmp, template):
                     problems.append(f"the dataset B stored is visible at the end but cannot be read ({type(e).__name__})")
         elif found is not None:
             problems.append(f"B -> {res.get('B')} but a dataset is registered in the slot")
+        # the model (Model/Lock.lean): its order of the two undo steps is the one observed, and it predicts the outcome
+        first = [x for i_, x in enumerate(observed) if x not in observed[:i_]]
+        model_order, = core.driver(["conc lock order"])
+        if ",".join(first) != model_order:
+            ctx.broken.append(f"correspondence: a failed Butler.transaction() block was undone in the order {first}, the model (Lock.sourceOrder) has {model_order}")
+        elif found is not None and res.get("B") == "ok":
+            try:
+                readable = fresh_b.get(found) == {"who": "B"}
+            except Exception:
+                readable = False
+            want_m, = core.driver([f"conc lock {model_order} 1"])
+            got_m = f"row=B file={'B' if readable else '-'}"
+            if want_m != got_m:
+                ctx.broken.append(f"correspondence: `conc lock {model_order} 1` model={want_m} implementation={got_m}")
         if problems:
             viol("client A's block `put(slot); raise` undone while client B puts into the same slot (A's undo held until B is done or 2 s have passed): "
                  + "; ".join(problems), "c20:thread:failed-block-vs-put", {"kind": "thread-race", "scenario": "failed-block-vs-put-same-slot", "problems": problems})
